@@ -22,7 +22,7 @@ for sel, nm in sorted(NAMES.items()):
                           desc='opn2_rt_%s with every uint8 channel and argument value: no out-of-bounds access' % nm,
                           bounds='one call after opn2_init; all 256 channel values, all argument values', stubs=PLAYER_STUBS))
 
-OBLIGATIONS.append(Ob('C03.rt.panic', 'C03', 'ir/c03_rt.cpp', engine='ir', entry='harness_rt', defines=['STEPS=1', 'SEL_LO=11', 'SEL_HI=11'],
+OBLIGATIONS.append(Ob('C03.rt.panic', 'C03', 'ir/c03_rt.cpp', engine='ir', entry='harness_rt', defines=['STEPS=1', 'SEL_LO=11', 'SEL_HI=11'], tiers=('thorough',),
                       unwind=20, unwind_funcs=RT_UNWIND, unwindset={'memcmp.0': 40}, repo_tus=PLAYER_TUS, ir_opts=player_ir_opts(),
                       timeout={'quick': 900, 'thorough': 3000}, termination=True,
                       desc='opn2_panic after opn2_init: memory-safe, terminates', bounds='one call', assumptions=RT_ASSUME, stubs=PLAYER_STUBS))
@@ -32,7 +32,14 @@ for n in (0, 1, 2, 3, 4, 5):
                           timeout={'quick': 600, 'thorough': 1800},
                           desc='opn2_setDeviceIdentifier(any id 0..15) then opn2_rt_systemExclusive with every %d-byte message in an exact-size array: no access outside the message' % n,
                           bounds='message length %d; longer messages are covered by C19' % n, stubs=PLAYER_STUBS))
-for k, tiers in ((1, ('quick', 'thorough')), (2, ('thorough',)), (3, ('thorough',))):
+for ch in (0, 9, 16, 255):
+    OBLIGATIONS.append(Ob('C03.rt.k1.ch%d' % ch, 'C03', 'ir/c03_rt.cpp', engine='ir', entry='harness_rt', defines=['STEPS=1', 'NO_PANIC', 'CH_ONLY=%d' % ch],
+                          unwind=20, unwind_funcs=RT_UNWIND, unwindset={'memcmp.0': 40}, repo_tus=PLAYER_TUS, ir_opts=player_ir_opts(),
+                          timeout={'quick': 800, 'thorough': 3000}, termination=True,
+                          desc='one real-time API call (12 entry points, symbolic arguments) on channel %d after opn2_init: memory-safe, no throw/abort, all loops terminate' % ch,
+                          bounds='1 call; channel %d; keys/programs of the pinned instruments; all other argument bytes symbolic; 2 chips' % ch,
+                          assumptions=RT_ASSUME, stubs=PLAYER_STUBS))
+for k, tiers in ((2, ('thorough',)), (3, ('thorough',))):
     OBLIGATIONS.append(Ob('C03.rt.k%d' % k, 'C03', 'ir/c03_rt.cpp', engine='ir', entry='harness_rt', defines=['STEPS=%d' % k, 'NO_PANIC'],
                           unwind=20, unwind_funcs=RT_UNWIND, unwindset={'memcmp.0': 40}, repo_tus=PLAYER_TUS, ir_opts=player_ir_opts(),
                           tiers=tiers, timeout={'quick': 900, 'thorough': 3000}, termination=True,
